@@ -83,13 +83,15 @@ type State struct {
 	// walks over immutable Go map values (range loops), keyed by walk id
 	miters map[int]*MapIterState
 	facts map[*Term]bool
+	// the world at the unit's last call of a registered module callback (A-CALLBACK), for atcallback()
+	cbWorld *World
 	dead  bool
 	inBounds bool
 	// panicked paths etc. handled by outcomes
 }
 
 func (s *State) clone() *State {
-	n := &State{pc: append([]*Term(nil), s.pc...), mem: make(map[*Obj]Val, len(s.mem)), world: s.world.clone(), trace: append([]string(nil), s.trace...), dead: s.dead}
+	n := &State{pc: append([]*Term(nil), s.pc...), mem: make(map[*Obj]Val, len(s.mem)), world: s.world.clone(), trace: append([]string(nil), s.trace...), dead: s.dead, cbWorld: s.cbWorld}
 	for k, v := range s.mem {
 		n.mem[k] = v
 	}
@@ -1223,6 +1225,15 @@ func (x *Exec) step(f *Frame, st *State, ins ssa.Instruction) bool {
 		}
 		if s == SBytes {
 			f.regs[in] = &BufVal{ID: x.freshName("buf"), Len: ln}
+			break
+		}
+		if !isSliceSort(s) || len(s.Fields) < 2 {
+			// a named slice type with a sort of its own (sdk.Coins ...): the empty value when made with length 0
+			if ln.IsLit() && ln.Lit.Sign() == 0 {
+				f.regs[in] = ZeroOf(s)
+			} else {
+				f.regs[in] = x.freshVal(st, in.Type(), "makeslice")
+			}
 			break
 		}
 		f.regs[in] = Con(s, ln, ZeroOf(s.Fields[1].Sort))
